@@ -42,8 +42,16 @@ def comp : Component (St Float) where
     match opOfRec r with
     | none => (s, [Rec.mk' "badop"], [])
     | some op =>
-      let (s', evs) := step s op
-      (s', evs.map Shield.evRec ++ [listRec s' (r.int "tgt")], tagsOf s r evs)
+      let (s1, evs1) := step s op
+      -- a removal whose announcement a listener answers with a backup shield for the same unit (flat strength, no
+      -- bonuses): the new shield is attached, and announced, before the removal's own announcement is complete
+      let (s', evs) :=
+        if r.name == "remove" && r.has "rekey" && !evs1.isEmpty then
+          let (s2, evs2) := step s1 (.add (r.int "rekey") (r.int "tgt") (r.int "tgt") [] (r.flt "rehp")
+            { srcATK := 0, srcDEF := 0, srcHP := 1000, tgtHP := 1000, boost := 0, taken := 0 })
+          (s2, evs2 ++ evs1)
+        else (s1, evs1)
+      (s', evs.map Shield.evRec ++ [listRec s' (r.int "tgt")], tagsOf s r evs ++ (if r.has "rekey" then ["readd-listener"] else []))
   prop := ShieldProp.prop
 
 def main (args : List String) : IO Unit := Driver.main comp args
